@@ -8,7 +8,7 @@
    What is proved here is the library-helper half of C20 ("helper routines never write beyond the
    space they reserved") for all argument values.  The statement about all 24 executables on all
    byte streams is NOT a theorem: it is observed by sanitizer runs (sampling), see checks/C20.py. *)
-From PP Require Import ToStr.ToStringDefs ToStr.ToStringProofs ToStr.ToStringDigits.
+From PP Require Import ToStr.ToStringDefs ToStr.ToStringProofs ToStr.ToStringDigits ToStr.ToStringValue ToStr.ToStringHex.
 Local Open Scope Z_scope.
 
 (* full statement of the property, kept visible; only the part below it is proved *)
@@ -71,18 +71,39 @@ Theorem C20_16bit_digits :
 Proof. exact fmt_16_digits_proof. Qed.
 Print Assumptions C20_16bit_digits.
 
-(* pointers: text = "0x" + hexadecimal numeral.  PARTIAL: proved (exhaustively) for values below 2^16 only;
-   missing: the nibble induction for all 64-bit values (larger values are compared with Python's hex() on samples) *)
-Definition C20_ptr_digits_statement : Prop := forall p, 0 <= p < 18446744073709551616 -> f_out (fmt_ptr p) = 48 :: 120 :: hexnum p.
-Theorem C20_ptr_digits_partial : forall p, 0 <= p < 65536 -> f_out (fmt_ptr p) = 48 :: 120 :: hexnum p.
-Proof. exact fmt_ptr_digits_partial. Qed.
-Print Assumptions C20_ptr_digits_partial.
+(* pointers: text = "0x" + hexadecimal numeral (no leading zeros, "0x0" for null), for every 64-bit value:
+   the nibbles obtained by shifting and masking are the base-16 digits; leading zero nibbles are dropped *)
+Theorem C20_ptr_digits : forall p, 0 <= p < 18446744073709551616 -> f_out (fmt_ptr p) = 48 :: 120 :: hexnum p.
+Proof. exact fmt_ptr_digits_proof. Qed.
+Print Assumptions C20_ptr_digits.
 
 (* (d) termination of the only counted loop in the layout code: the 5 slots of the exponent buffer are enough
    and its text is the numeral, for every exponent the source admits (ASSERT(exponent < 1e4)) *)
 Theorem C20_exponent_digits : forall e, 1 <= e < 10000 -> exp_loop 5 e [] = dec e.
 Proof. exact exp_loop_digits_proof. Qed.
 Print Assumptions C20_exponent_digits.
+
+(* (a3) the text laid out for a double DENOTES the digits it was given: an independent reader of decimal /
+   exponential notation ([read_number]: sign, integer part, '.', fraction, 'e', signed exponent) maps the text of
+   ToShortest back to  (sign, m, e)  with  m * 10^e = digits * 10^(decimal_point - number of digits)
+   -- for every sign, every digit string of 1..17 digits and every decimal point position of a finite double,
+   in all four layouts (0.000ddd, ddd000, dd.ddd, d.ddde-xx).  Together with the digit theorems no layout path emits
+   garbage; that the digits denote the double is the digit generator's job (environment). *)
+Theorem C20_double_text_denotes_digits :
+  forall sign digits dp, digits_ok kBase10MaximalLength digits = true -> -323 <= dp <= 309 ->
+  denotes (to_shortest_chars (DFinite sign digits dp)) sign digits dp.
+Proof. intros sign digits dp. exact (to_shortest_denotes_proof kBase10MaximalLength sign digits dp). Qed.
+Print Assumptions C20_double_text_denotes_digits.
+
+(* ... and for floats (ToShortestSingle lays out with the same code) *)
+Theorem C20_float_text_denotes_digits :
+  forall sign digits dp, dvalue_ok_float (DFinite sign digits dp) = true ->
+  denotes (to_shortest_chars (DFinite sign digits dp)) sign digits dp.
+Proof.
+  intros sign digits dp H. simpl in H. apply andb_true_iff in H. destruct H as [H H2]. apply andb_true_iff in H. destruct H as [H0 H1].
+  apply (to_shortest_denotes_proof 9 sign digits dp H0). split; [apply Z.leb_le in H1|apply Z.leb_le in H2]; lia.
+Qed.
+Print Assumptions C20_double_text_denotes_digits.
 
 (* (a') double / float: whatever the digit generator delivers within its documented range
         (<= 17 resp. 9 digits, decimal point position of a finite double / float), the text plus
@@ -171,6 +192,13 @@ Example C20_nonvacuous_threaded :
   | _ => False
   end.
 Proof. vm_compute. reflexivity. Qed.
+
+(* "-0.00000987" reads back as -(987 * 10^-8); "1.2e21" as 12 * 10^20; "100000000000000000000" as 1 * 10^20 with k = 20 *)
+Example C20_nonvacuous_reader :
+  read_number (to_shortest_chars (DFinite true [57; 56; 55] (-5))) = (true, (987, -8)) /\
+  read_number (to_shortest_chars (DFinite false [49; 50] 22)) = (false, (12, 20)) /\
+  read_number (to_shortest_chars (DFinite false [49] 21)) = (false, (100000000000000000000, 0)).
+Proof. vm_compute. repeat split. Qed.
 
 Example C20_nonvacuous_dec :
   dec 0 = [48] /\ dec 1234567890123 = [49;50;51;52;53;54;55;56;57;48;49;50;51] /\
